@@ -5,6 +5,7 @@ import (
 	"fmt"
 	"github.com/aml-org/amf-custom-validator/internal/misc"
 	"github.com/aml-org/amf-custom-validator/internal/parser/profile"
+	"strings"
 )
 
 func GeneratePattern(pattern profile.PatternRule, iriExpander *misc.IriExpander) []SimpleRegoResult {
@@ -17,9 +18,9 @@ func GeneratePattern(pattern profile.PatternRule, iriExpander *misc.IriExpander)
 	rego = append(rego, fmt.Sprintf("%s = %s_array[_]", checkVariable, checkVariable))
 	// Add the validation
 	if pattern.Negated {
-		rego = append(rego, fmt.Sprintf("regex.match(`%s`,%s)", pattern.Argument, checkVariable))
+		rego = append(rego, fmt.Sprintf("regex.match(%s,%s)", regoPatternLiteral(pattern.Argument), checkVariable))
 	} else {
-		rego = append(rego, fmt.Sprintf("not regex.match(`%s`,%s)", pattern.Argument, checkVariable))
+		rego = append(rego, fmt.Sprintf("not regex.match(%s,%s)", regoPatternLiteral(pattern.Argument), checkVariable))
 	}
 
 	tracePath, err := pattern.Path.Trace(iriExpander)
@@ -44,4 +45,13 @@ func GeneratePattern(pattern profile.PatternRule, iriExpander *misc.IriExpander)
 		Variable: checkVariable,
 	}
 	return []SimpleRegoResult{r}
+}
+
+// regoPatternLiteral writes a regular expression as a raw string between backticks; a pattern that itself contains a
+// backtick cannot be written that way and becomes an escaped double-quoted string.
+func regoPatternLiteral(pattern string) string {
+	if strings.Contains(pattern, "`") {
+		return "\"" + regoStringContent(pattern) + "\""
+	}
+	return "`" + pattern + "`"
 }
